@@ -37,6 +37,10 @@ structure Frame where
   old : Grid := []
   /-- the local `pen` (resize() only): the pen before the reflow -/
   pen : EStyle := {}
+  /-- `param[0]` of the enclosing loop over the parameter list -/
+  param : Int := 0
+  /-- the local `state` of decsc()/decrc() -/
+  state : Saved := {}
 
 def Frame.get (s : Frame) : Loc → Int
   | .curRow => s.e.cur.row
@@ -74,6 +78,7 @@ def evalEx (pm : List Param) (s : Frame) (lvs : List Int) : Ex → Int
   | .lenPm => pm.length
   | .psParams => ps pm
   | .tab => s.tab
+  | .param0 => s.param
 
 /-- every `pm[k][0]` inside the expression is in range -/
 def exOk (pm : List Param) : Ex → Bool
@@ -200,6 +205,10 @@ def evalG (pm : List Param) (s : Frame) : Stmt → List Int → Grid → M (Grid
   | .assign _ _, _, g => .ok (g, .norm)      -- excluded by `wf`
   | .setLastCol _, _, g => .ok (g, .norm)    -- excluded by `wf`
   | .call _ _, _, g => .ok (g, .norm)        -- excluded by `wf`
+  | .tabsAppendRange _ _ _, _, g => .ok (g, .norm)  -- excluded by `wf`
+  | .setMode _ _, _, g => .ok (g, .norm)     -- excluded by `wf`
+  | .forParams _, _, g => .ok (g, .norm)     -- excluded by `wf`
+  | .reply, _, g => .ok (g, .norm)           -- excluded by `wf`
   | .unknown _, _, g => .ok (g, .norm)       -- excluded by `noUnknown`
 
 /-- `vt.f(arg)` for the modelled callees (the code as it is now: `Fixes.current`). -/
@@ -214,6 +223,10 @@ def callFn (f : Fn) (n : Int) (e : Emu) : M Emu :=
   | .cht => .ok (cht Fixes.current e n)
   | .scrollUp => scrollUp e n
   | .scrollDown => scrollDown e n
+  | .decsc => .ok (decsc e)
+  | .decrc => .ok (decrc e)
+  | .ed => ed e n
+  | .setDefaultTabStops => .ok { e with tabs := defaultTabs }
 
 /-- A loop over the tab stops: the body may assign to scalars, `break` and `continue`. -/
 def tabLoop (body : Int → Frame → M (Frame × Sig)) : List Int → Frame → M Frame
@@ -221,6 +234,18 @@ def tabLoop (body : Int → Frame → M (Frame × Sig)) : List Int → Frame →
   | t :: rest, s => do
     let r ← body t s
     if r.2 = .brk ∨ r.2 = .ret then .ok r.1 else tabLoop body rest r.1
+
+/-- A loop over the parameter list: the body runs at function level (it may assign, call, set
+    modes); `break`/`return` leave the loop. -/
+def paramLoop (body : Int → Frame → M (Frame × Sig)) : List Param → Frame → M Frame
+  | [], s => .ok s
+  | p :: rest, s => do
+    let r ← body p.1 s
+    if r.2 = .brk ∨ r.2 = .ret then .ok r.1 else paramLoop body rest r.1
+
+/-- `for i := first; i < limit; i += step`: the values of `i` -/
+def rangeStep (first limit step : Nat) : List Int :=
+  if step = 0 then [] else (List.range ((limit - first + step - 1) / step)).map (fun k => ((first + k * step : Nat) : Int))
 
 /-- Statements at function level. -/
 def evalS (pm : List Param) : Stmt → Frame → M (Frame × Sig)
@@ -246,6 +271,32 @@ def evalS (pm : List Param) : Stmt → Frame → M (Frame × Sig)
     -- `last` is local 2 of resize()
     let e' ← reflow Fixes.current (s.vars 2) s.old 0 s.e
     .ok ({ s with e := e' }, .norm)
+  | .prim .activeAlt, s => .ok ({ s with e := { s.e with altActive := true } }, .norm)
+  | .prim .stateCapture, s =>
+    .ok ({ s with state := { cur := s.e.cur, decawm := s.e.mode.decawm, decom := s.e.mode.decom,
+                             cs := { sel := s.e.cs.sel, saved := s.e.cs.saved, ss := false,
+                                     g0 := s.e.cs.g0, g1 := s.e.cs.g1, g2 := s.e.cs.g2, g3 := s.e.cs.g3 } } }, .norm)
+  | .prim .stateStoreAlt, s => .ok ({ s with e := { s.e with savedA := s.state } }, .norm)
+  | .prim .stateStorePrimary, s => .ok ({ s with e := { s.e with savedP := s.state } }, .norm)
+  | .prim .stateZero, s => .ok ({ s with state := { decawm := false } }, .norm)
+  | .prim .stateLoadAlt, s => .ok ({ s with state := s.e.savedA }, .norm)
+  | .prim .stateLoadPrimary, s => .ok ({ s with state := s.e.savedP }, .norm)
+  | .prim .cursorFromState, s => .ok ({ s with e := { s.e with cur := s.state.cur } }, .norm)
+  | .prim .charsetsFromState, s =>
+    .ok ({ s with e := { s.e with cs := { sel := s.state.cs.sel, saved := s.state.cs.saved, ss := false,
+                                          g0 := s.state.cs.g0, g1 := s.state.cs.g1, g2 := s.state.cs.g2, g3 := s.state.cs.g3 } } }, .norm)
+  | .prim .decawmFromState, s => .ok ({ s with e := { s.e with mode := { s.e.mode with decawm := s.state.decawm } } }, .norm)
+  | .prim .decomFromState, s => .ok ({ s with e := { s.e with mode := { s.e.mode with decom := s.state.decom } } }, .norm)
+  | .prim .charsetsReset, s => .ok ({ s with e := { s.e with cs := {} } }, .norm)
+  | .prim .modeReset, s => .ok ({ s with e := { s.e with mode := { decawm := true, dectcem := true } } }, .norm)
+  | .setMode f b, s => .ok ({ s with e := { s.e with mode := s.e.mode.set f b } }, .norm)
+  | .reply, s => .ok (s, .norm)
+  | .tabsAppendRange a b c, s => .ok ({ s with e := { s.e with tabs := s.e.tabs ++ rangeStep a b c } }, .norm)
+  | .forParams body, s => do
+    let s' ← paramLoop (fun p s => do
+      let r ← evalS pm body { s with param := p }
+      .ok ({ r.1 with param := s.param }, r.2)) pm s
+    .ok (s', .norm)
   | .prim .savePen, s => .ok ({ s with pen := s.e.cur.st }, .norm)
   | .prim .restorePen, s => .ok ({ s with e := { s.e with cur := { s.e.cur with st := s.pen } } }, .norm)
   | .allocAlt h, s =>
@@ -322,6 +373,7 @@ def noUnknown : Stmt → Bool
   | .forUp _ _ b => noUnknown b
   | .forDown _ _ b => noUnknown b
   | .forTabs b => noUnknown b
+  | .forParams b => noUnknown b
   | .forTabsDown b => noUnknown b
   | .unknown _ => false
   | _ => true
@@ -360,6 +412,19 @@ def tabLoopWf : Stmt → Bool
   | .cont => true
   | _ => false
 
+/-- inside a loop over the parameter list: straight-line function-level statements, no nested loop,
+    no `break`/`continue`/`return` -/
+def paramLoopWf : Stmt → Bool
+  | .skip => true
+  | .seq a b => paramLoopWf a && paramLoopWf b
+  | .ite _ t f => paramLoopWf t && paramLoopWf f
+  | .assign _ _ => true
+  | .setLastCol _ => true
+  | .setMode _ _ => true
+  | .call _ _ => true
+  | .prim _ => true
+  | _ => false
+
 /-- function level; `tail` = nothing follows this statement in the function -/
 def topWf (tail : Bool) : Stmt → Bool
   | .seq a b => topWf false a && topWf tail b
@@ -370,6 +435,7 @@ def topWf (tail : Bool) : Stmt → Bool
   | .forDown _ _ b => loopWf tail b
   | .forTabs b => tabLoopWf b
   | .forTabsDown b => tabLoopWf b
+  | .forParams b => paramLoopWf b
   | _ => true
 
 def Body.wf (b : Body) : Bool := topWf true b.stmt
